@@ -83,23 +83,106 @@ func (j jar) coq() string {
 	return emit.List(items)
 }
 
-// world: key material #0 (the RP's) and #1 (a foreign CookieHandler)
+// world: key material #0 (the RP's) and #1..#4: foreign CookieHandlers whose keys are
+// NEAR MISSES of the RP's keys (the model says: any difference in the key material rejects).
+//   #1 hash key differs only behind a common prefix of 64 / 32 / 16 / 8 bytes, same block key
+//   #2 hash key of another length: a prefix of the RP's key (64 / 32 / 16 / 8 bytes) or the RP's key extended, same block key
+//   #3 same hash key, different block key (none / other length / last byte differs)
+//   #4 first byte differs, or unrelated random keys
+// All key bytes are non-zero (HMAC zero-pads short keys: K and K||0 are the same key by definition).
+const nHandlers = 5
+
 type world struct {
-	keys [2][2][]byte
-	twin [2]*httphelper.CookieHandler
+	keys  [nHandlers][2][]byte
+	twin  [nHandlers]*httphelper.CookieHandler
+	modes [nHandlers]string
 }
 
-func newWorld(r drv.Rand, encrypt bool) *world {
-	w := &world{}
-	for i := 0; i < 2; i++ {
-		w.keys[i][0] = r.Bytes(32)
-		if encrypt {
-			w.keys[i][1] = r.Bytes(32)
+func nzBytes(r drv.Rand, n int) []byte {
+	b := make([]byte, n)
+	for i := range b {
+		b[i] = byte(1 + r.IntN(255))
+	}
+	return b
+}
+
+func flipAt(r drv.Rand, key []byte, from int) []byte {
+	k := append([]byte{}, key...)
+	i := from + r.IntN(len(k)-from)
+	old := k[i]
+	for k[i] == old || k[i] == 0 {
+		k[i] = byte(1 + r.IntN(255))
+	}
+	return k
+}
+
+func prefixBelow(n int) int {
+	for _, p := range []int{64, 32, 16, 8} {
+		if p < n {
+			return p
 		}
+	}
+	return 1
+}
+
+func newWorld(r drv.Rand) *world {
+	w := &world{}
+	hk := nzBytes(r, drv.Pick(r, []int{16, 32, 33, 48, 64, 65, 100}))
+	var bk []byte
+	if n := drv.Pick(r, []int{0, 0, 16, 24, 32, 32}); n > 0 {
+		bk = nzBytes(r, n)
+	}
+	w.keys[0] = [2][]byte{hk, bk}
+	w.modes[0] = fmt.Sprintf("rp-hash%d-block%d", len(hk), len(bk))
+	// #1 differing tail
+	p := prefixBelow(len(hk))
+	w.keys[1] = [2][]byte{flipAt(r, hk, p), bk}
+	w.modes[1] = fmt.Sprintf("tail-after-%d", p)
+	// #2 other length
+	if r.Bool() {
+		w.keys[2] = [2][]byte{append([]byte{}, hk[:p]...), bk}
+		w.modes[2] = fmt.Sprintf("prefix-%d", p)
+	} else {
+		ext := drv.Pick(r, []int{1, 16, 32})
+		w.keys[2] = [2][]byte{append(append([]byte{}, hk...), nzBytes(r, ext)...), bk}
+		w.modes[2] = fmt.Sprintf("extended-%d", ext)
+	}
+	// #3 same hash key, other block key
+	switch {
+	case bk == nil:
+		w.keys[3] = [2][]byte{hk, nzBytes(r, drv.Pick(r, []int{16, 24, 32}))}
+		w.modes[3] = "block-added"
+	case r.IntN(3) == 0:
+		w.keys[3] = [2][]byte{hk, nil}
+		w.modes[3] = "block-removed"
+	case r.Bool():
+		w.keys[3] = [2][]byte{hk, flipAt(r, bk, len(bk)-1)}
+		w.modes[3] = "block-last-byte"
+	default:
+		w.keys[3] = [2][]byte{hk, nzBytes(r, drv.Pick(r, []int{16, 24, 32}))}
+		w.modes[3] = "block-other"
+	}
+	// #4 first byte / unrelated
+	if r.Bool() {
+		k := append([]byte{}, hk...)
+		k[0] ^= 0x80
+		if k[0] == 0 {
+			k[0] = 0x7f
+		}
+		w.keys[4] = [2][]byte{k, bk}
+		w.modes[4] = "first-byte"
+	} else {
+		w.keys[4] = [2][]byte{nzBytes(r, len(hk)), nzBytes(r, 32)}
+		w.modes[4] = "unrelated"
+	}
+	for i := 0; i < nHandlers; i++ {
 		w.twin[i] = httphelper.NewCookieHandler(w.keys[i][0], w.keys[i][1])
 	}
 	return w
 }
+
+// foreign picks one of the foreign handlers
+func (w *world) foreign(r drv.Rand) int { return 1 + r.IntN(nHandlers-1) }
 
 // mint a cookie with handler #k for name/value
 func (w *world) mint(k int, name, value string) entry {
@@ -392,7 +475,7 @@ func resolveSet(r drv.Rand, w *world, kind int, j jar, minted []entry) entry {
 	}
 	switch kind {
 	case 1:
-		return w.mint(1, drv.Pick(r, []string{"state", "pkce"}), drv.Pick(r, statePool))
+		return w.mint(w.foreign(r), drv.Pick(r, []string{"state", "pkce"}), drv.Pick(r, statePool))
 	case 2:
 		if e, ok := j.get("state"); ok {
 			e.name = "pkce"
@@ -785,7 +868,7 @@ func main() {
 	dropped := 0
 
 	for i := 0; i < n; i++ {
-		wd := newWorld(r, r.Bool())
+		wd := newWorld(r)
 		c := genConfig(r)
 		kind := i % 12
 		if kind >= 10 && r.Chance(5, 6) {
@@ -798,7 +881,7 @@ func main() {
 		}
 		var j0 jar
 		var ops []op
-		tags := []string{fmt.Sprintf("pkce=%v", c.pkce), fmt.Sprintf("jwt=%v", c.jwt)}
+		tags := []string{fmt.Sprintf("pkce=%v", c.pkce), fmt.Sprintf("jwt=%v", c.jwt), "rpkeys=" + wd.modes[0]}
 		switch {
 		case kind < 3: // (jar, query) pair: scripted jar, one callback
 			tags = append(tags, "kind=pair")
@@ -809,17 +892,21 @@ func main() {
 			v := "verifier-" + fmt.Sprint(r.IntN(1000))
 			stateE := wd.mint(0, "state", s)
 			pkceE := wd.mint(0, "pkce", v)
-			sc := r.IntN(15)
-			if sc >= 12 {
+			sc := r.IntN(18)
+			if sc >= 15 {
+				sc = 4
+			} else if sc >= 12 {
 				sc = 0
 			}
+			fk := wd.foreign(r) // the foreign handler used by this case, if any
 			switch sc {
 			case 0, 1, 2: // valid and matching
 				j0 = j0.set(stateE)
 			case 3: // valid, other value
 				j0 = j0.set(wd.mint(0, "state", s+"-other"))
 			case 4: // minted under other keys
-				j0 = j0.set(wd.mint(1, "state", s))
+				j0 = j0.set(wd.mint(fk, "state", s))
+				tags = append(tags, "foreignkey="+wd.modes[fk])
 			case 5: // minted for the other name (pkce cookie holding the state), stored as "state"
 				e := wd.mint(0, "pkce", s)
 				e.name = "state"
@@ -835,7 +922,7 @@ func main() {
 			case 10: // two state cookies, junk first
 				j0 = append(j0, tamper(r, stateE, 2), stateE)
 			case 11: // two state cookies, valid first
-				j0 = append(j0, stateE, wd.mint(1, "state", s))
+				j0 = append(j0, stateE, wd.mint(fk, "state", s))
 			}
 			tags = append(tags, fmt.Sprintf("statecookie=%d", sc))
 			pc := r.IntN(8)
@@ -843,7 +930,8 @@ func main() {
 			case 0, 1, 2, 3:
 				j0 = append(j0.del("pkce"), pkceE)
 			case 4:
-				j0 = append(j0.del("pkce"), wd.mint(1, "pkce", v))
+				j0 = append(j0.del("pkce"), wd.mint(fk, "pkce", v))
+				tags = append(tags, "foreignpkcekey="+wd.modes[fk])
 			case 5:
 				e := wd.mint(0, "state", v)
 				e.name = "pkce"
@@ -1014,7 +1102,7 @@ func main() {
 			Human: map[string]any{"config": fmt.Sprintf("%+v", c), "jar": j0.coq(), "steps": res.human}})
 	}
 	err = w.Close(emit.Meta{Property: "C17", Tier: cfg.Tier, Seed: cfg.Seed,
-		Rule: "each case = one RP configuration (PKCE, JWT profile, client, redirect URI, scopes, URL options, auth style, cookie encryption) + initial jar + history in one browser jar. kind=pair: scripted jar (valid / other value / other keys / other name / swapped / truncated / flipped / random / plaintext / missing / duplicate cookies) and one callback query; kind=ordering: every interleaving of 2 or 3 logins and their callbacks, cycled; kind=overlap: requests that run re-entrantly, on the same handler values, inside another request's option evaluation: login inside login (1st of 2, 2nd of 3, twice, after a finished flow), login+callback inside a callback, double-submitted callback, callback inside a login; states: short / empty / non-ASCII / 255-2000 bytes with shared prefixes / too long for the cookie; every 5th callback state is a near miss (prefix, suffix, case, one byte, cut at 64/128/255/256/257, tampered tail); kind=history: random logins (some overlapped), callbacks (GET/POST, lost responses), deletions and unacceptable foreign cookie writes; kind=replay: histories that also re-insert older validly minted cookies. Non-trivial = the model's path class != 0 (anything beyond 'no state cookie in the jar'); distinct = distinct (input, path).",
+		Rule: "each case = one RP configuration (PKCE, JWT profile, client, redirect URI, scopes, URL options, auth style, cookie keys: hash key of 16/32/33/48/64/65/100 bytes, block key none/16/24/32) + initial jar + history in one browser jar. kind=pair: scripted jar (valid / other value / minted by a foreign CookieHandler whose keys are near misses of the RP's: differing tail behind a 64/32/16/8-byte prefix, prefix or extension of the hash key, same hash key with other block key, first byte, unrelated / other name / swapped / truncated / flipped / random / plaintext / missing / duplicate cookies) and one callback query; kind=ordering: every interleaving of 2 or 3 logins and their callbacks, cycled; kind=overlap: requests that run re-entrantly, on the same handler values, inside another request's option evaluation: login inside login (1st of 2, 2nd of 3, twice, after a finished flow), login+callback inside a callback, double-submitted callback, callback inside a login; states: short / empty / non-ASCII / 255-2000 bytes with shared prefixes / too long for the cookie; every 5th callback state is a near miss (prefix, suffix, case, one byte, cut at 64/128/255/256/257, tampered tail); kind=history: random logins (some overlapped), callbacks (GET/POST, lost responses), deletions and unacceptable foreign cookie writes; kind=replay: histories that also re-insert older validly minted cookies. Non-trivial = the model's path class != 0 (anything beyond 'no state cookie in the jar'); distinct = distinct (input, path).",
 		Extra: map[string]any{"orderings_2": len(ord2), "orderings_3": len(ord3), "ordering_cases": ordIdx, "dropped": dropped},
 	})
 	if err != nil {
